@@ -64,7 +64,7 @@ def _model_vals(model, eng):
     return vals
 
 
-def _random_model(eng, rng, base):
+def _random_model(eng, rng, base, nofix=False):
     """a model of the path condition with as many randomly fixed inputs as stays feasible"""
     names = list(eng.input_order)
     rng.shuffle(names)
@@ -72,6 +72,8 @@ def _random_model(eng, rng, base):
     s.set("timeout", 20000)
     s.add(*base)
     tries = [names, names[: len(names) // 2], names[: len(names) // 4], []]
+    if nofix:
+        tries = [[]]
     ranges = _input_ranges(eng)
     for sub in tries:
         s.push()
@@ -195,8 +197,10 @@ def _decide_path(h, dec, eng, out, res, rng, nvalidate, replay_dir, prop):
             return
     # engine validation against the real library on concrete inputs (Serval-style)
     if not out.get("raised"):
+        # torch leaves the order among equal sort/topk/max keys unspecified: validate on tie-free draws only
+        vbase = base + [_to_z3_bool(c) for c in eng.tie_free] if eng.tie_free else base
         for i in range(nvalidate):
-            m = m0 if i == 0 else _random_model(eng, rng, base)
+            m = _random_model(eng, rng, vbase, nofix=(i == 0))
             if m is None:
                 continue
             m = _pinned(h, eng, m, base, res)
